@@ -49,13 +49,18 @@ fn parse_once(text: &str) -> J {
         Ok((rest, d)) if rest.is_empty() => {
             // force the lazily computed parts as well: serialization and attribute values
             let s = d.to_string();
-            Some(s)
+            // "parsing the same text twice yields equal documents": a second parse, compared with the library's ==
+            let eq = match xml_dom::XmlDocument::from_raw(&t) {
+                Ok((r2, d2)) => r2.is_empty() && d2 == d && d2.to_string() == s,
+                Err(_) => false,
+            };
+            Some((s, eq))
         }
         _ => None,
     }) {
-        Ok(Some(s)) => json!({"ok": true, "ser": string_to_cps(&s)}),
-        Ok(None) => json!({"ok": false, "ser": []}),
-        Err(p) => json!({"ok": false, "ser": string_to_cps(&format!("panic: {}", p.chars().take(60).collect::<String>()))}),
+        Ok(Some((s, eq))) => json!({"ok": true, "ser": string_to_cps(&s), "eq": eq}),
+        Ok(None) => json!({"ok": false, "ser": [], "eq": true}),
+        Err(p) => json!({"ok": false, "ser": string_to_cps(&format!("panic: {}", p.chars().take(60).collect::<String>())), "eq": true}),
     }
 }
 
@@ -206,12 +211,13 @@ fn qs_run(args: &[String]) -> i32 {
     let outp = arg_value(args, "--out").unwrap_or("-");
     let mut out = open_out(outp);
     let mut interner = Interner { map: Default::default() };
-    let mut docs: std::collections::BTreeMap<i64, (String, Vec<String>)> = Default::default();
+    let mut docs: std::collections::BTreeMap<i64, (String, Vec<String>, Vec<(String, String)>)> = Default::default();
     let mut sessions: Vec<(i64, Vec<usize>)> = vec![];
     for_each_case(inp, |c| match c["k"].as_str().unwrap_or("") {
         "qdoc" => {
             let qs = c["queries"].as_array().map(|a| a.iter().map(cps_to_string).collect()).unwrap_or_default();
-            docs.insert(c["d"].as_i64().unwrap_or(0), (cps_to_string(&c["text"]), qs));
+            let binds: Vec<(String, String)> = c["binds"].as_array().map(|a| a.iter().map(|b| (cps_to_string(&b[0]), cps_to_string(&b[1]))).collect()).unwrap_or_default();
+            docs.insert(c["d"].as_i64().unwrap_or(0), (cps_to_string(&c["text"]), qs, binds));
         }
         "qsession" => {
             let qs = c["qs"].as_array().map(|a| a.iter().filter_map(|x| x.as_u64().map(|v| v as usize)).collect()).unwrap_or_default();
@@ -221,12 +227,20 @@ fn qs_run(args: &[String]) -> i32 {
     });
     sessions.sort();
     // fresh answers: every query on a parse of its own, with a context of its own, in a thread of its own
-    for (d, (text, qs)) in &docs {
+    // a context as the caller sets it up for a document: its prefix bindings
+    fn new_ctx(binds: &[(String, String)]) -> xml_xpath::eval::model::Context {
+        let mut c = xml_xpath::eval::model::Context::default();
+        for (p, u) in binds {
+            c.add_ns(Some(p.as_str()), u.as_str());
+        }
+        c
+    }
+    for (d, (text, qs, binds)) in &docs {
         let mut answers = vec![];
         for q in qs {
-            let (t, q) = (text.clone(), q.clone());
+            let (t, q, b) = (text.clone(), q.clone(), binds.clone());
             answers.push(in_fresh_thread(move || match parse_doc(&t) {
-                Some(doc) => answer(&doc, &q, &mut Default::default()),
+                Some(doc) => answer(&doc, &q, &mut new_ctx(&b)),
                 None => json!({"t": "unparsed"}),
             }));
         }
@@ -238,18 +252,18 @@ fn qs_run(args: &[String]) -> i32 {
     let mut n = 0usize;
     let mut calls = 0usize;
     for (d, qs) in &sessions {
-        let (text, exprs) = match docs.get(d) {
+        let (text, exprs, binds) = match docs.get(d) {
             Some(x) => x.clone(),
             None => continue,
         };
         for variant in ["shared", "percall"] {
-            let (text, exprs, qs2) = (text.clone(), exprs.clone(), qs.clone());
+            let (text, exprs, qs2, binds) = (text.clone(), exprs.clone(), qs.clone(), binds.clone());
             let (answers, sers): (Vec<J>, Vec<J>) = in_fresh_thread(move || {
                 let doc = match parse_doc(&text) {
                     Some(d) => d,
                     None => return (qs2.iter().map(|_| json!({"t": "unparsed"})).collect(), qs2.iter().map(|_| json!([0])).collect()),
                 };
-                let mut shared = xml_xpath::eval::model::Context::default();
+                let mut shared = new_ctx(&binds);
                 let mut a = vec![];
                 let mut s = vec![];
                 for q in &qs2 {
@@ -257,7 +271,7 @@ fn qs_run(args: &[String]) -> i32 {
                     if variant == "shared" {
                         a.push(answer(&doc, e, &mut shared));
                     } else {
-                        a.push(answer(&doc, e, &mut Default::default()));
+                        a.push(answer(&doc, e, &mut new_ctx(&binds)));
                     }
                     s.push(ser_of(&doc));
                 }
